@@ -244,6 +244,7 @@ static void diag(char *buf, int sz)
     wl_actors_diag(S.A, S.nA, buf + k, sz - k);
 }
 
+static int force_recursive;
 static void run_cond(int timed_mode)
 {
     memset(&S, 0, sizeof S);
@@ -254,7 +255,7 @@ static void run_cond(int timed_mode)
     wl_rt_start(rt, WL_RT_NO_TOPO2);
     sim_allow_faults((1u << SIM_F_FUTEX_SPURIOUS) | (1u << SIM_F_COND_SPURIOUS) | (1u << SIM_F_NANOSLEEP_EARLY) | (1u << SIM_F_STALL) | (1u << SIM_F_SLOW_NODE) |
                      (1u << SIM_F_TARGET_DELAY) | (timed_mode ? (1u << SIM_F_CLOCK_JUMP) : 0));
-    S.recursive = plan_n(3) == 0;
+    S.recursive = plan_n(3) == 0 || force_recursive;
     if (S.recursive) {
         ABT_mutex_attr at;
         ABT_OK(ABT_mutex_attr_create(&at));
@@ -364,4 +365,12 @@ static void run_c05_timed(void)
 }
 SIM_WORKLOAD("C05", "cond-credit-timed", run_c05_timed, 5)
 SIM_WORKLOAD("C19", "cond-timed", run_c19_cond, 10)
+/* C04's "correct recursion" includes the ownership a waiter gives up and gets back inside
+ * ABT_cond_wait / ABT_cond_timedwait on a recursive mutex */
+static void run_c04_reccond(void)
+{
+    force_recursive = 1;
+    run_cond((int)plan_n(2));
+}
+SIM_WORKLOAD("C04", "recursive-mutex-cond", run_c04_reccond, 2)
 
